@@ -45,6 +45,11 @@ def frontend():
     goext("frontend", "Frontend.lean")
 
 
+def visitors():
+    """listener protocol table (push/pop actions with guards per visitor type and rule), C08/C07"""
+    goext("visitors", "Visitors.lean")
+
+
 def witness(script, outname, build_first):
     """Run lean/Witness/<script>.lean (compiled evaluation, untrusted) and store its stdout as a generated file."""
     _rm(outname)
